@@ -16,7 +16,7 @@ TRUSTED = ['Gen/Ident.v is regenerated from intrf_circuit_operation.py / intrf_c
            'unique_in_order: hand-written model (C19/Model.v), tied by exhaustive comparison on all lists of length <= 5 over 3 symbols']
 ASSUMPTIONS = ['Python str hash and tuple hash are arbitrary functions (Section variables shash/thash); set/dict membership = exists an equal member (hash-consistent equality)',
                'degenerate edges A-A are outside the statement']
-RULE = ('exhaustive: all ordered pairs of channel identifiers over 3 qubits x 4 channels; all ordered pairs of qubit ids over 5 names; '
+RULE = ('exhaustive: all ordered pairs of channel identifiers over 3 qubits (0, 1, 300) x 4 channels; all ordered pairs of qubit ids over 5 names; '
         'all ordered pairs of edges over 4 names (incl. swapped); all integer lists of length<=5 over 3 symbols (quick: <=4). '
         'non-trivial: pair shares a qubit / edge pair shares a qubit / list has a repeated element')
 CHANS = ['READOUT', 'MICROWAVE', 'FLUX', 'ALL']
@@ -25,7 +25,7 @@ NAMES = ['D1', 'D2', 'Z1', 'X1', 'D10']
 
 def gen_cases(rng, tier):
     cases = []
-    ids = [(q, c) for q in range(3) for c in CHANS]
+    ids = [(q, c) for q in (0, 1, 300) for c in CHANS]      # 300: outside the interned small ints
     for a in ids:
         for b in ids:
             cases.append({'k': 'chan', 'a': list(a), 'b': list(b)})
